@@ -5,7 +5,7 @@
    the accumulation over hysteresis tables (C09Accum, executable over Q), compute_beta (C09Beta, solver as Section variable). *)
 From Coq Require Import Reals QArith List.
 From Coquelicot Require Import Coquelicot.
-From PL Require Import Common.RPrelude FKM.C09Curves FKM.C09Damage FKM.C09Accum FKM.C09Beta FKM.C09GammaL.
+From PL Require Import Common.RPrelude Assess.Layout FKM.C09Curves FKM.C09Damage FKM.C09Accum FKM.C09Multi FKM.C09Beta FKM.C09GammaL.
 From PLgen Require Import GenWoehlerFKMNonlinear GenFKMLoadDistribution.
 Open Scope R_scope.
 
@@ -113,6 +113,41 @@ Theorem literal_accumulation_reaches_one_at_x rows k : (0 < D2 rows)%Q ->
   ((literal_sum rows k < 1)%Q <-> (ofnat k < x_of rows)%Q).
 Proof. exact (C09Accum.literal_accumulation_reaches_one_at_x rows k). Qed.
 
+(* ---- several assessment points at once: the collective is one table ordered (hysteresis, point) = concat blocks (block h = the
+   rows of hysteresis h for the points 0 .. n-1); a per-point knee P_RAM_Z is broadcast by tiling it once per hysteresis.
+   Row h * n + i is computed with the knee of point i (columns N, D of DamageCalculatorPRAM, hysteresis = (P_RAM, closed)) *)
+Theorem multipoint_row_uses_own_knee (d1 d2 : R) (n h i : nat) (knees : list R) (blocks : list (list (R * bool))) :
+  length knees = n -> well_formed n blocks -> (h < length blocks)%nat -> (i < n)%nat ->
+  nth (h * n + i) (map2 (fun Z r => dc_D (snd r) (dc_N Z d1 d2 (fst r))) (tile (length blocks) knees) (concat blocks)) 0
+  = dc_D (snd (nth i (nth h blocks nil) (0, true))) (dc_N (nth i knees 0) d1 d2 (fst (nth i (nth h blocks nil) (0, true)))).
+Proof. exact (C09Multi.row_tiled (fun Z r => dc_D (snd r) (dc_N Z d1 d2 (fst r))) 0 (0, true) 0 n h i knees blocks). Qed.
+
+(* the lifetime of point i read from the batch = the accumulation (theorems above) of the table of point i alone, with its own knee;
+   dmg_row knee hysteresis = (damage, second pass?) is arbitrary *)
+Theorem multipoint_lifetime_is_pointwise (Knee Hyst : Type) (dmg_row : Knee -> Hyst -> row) (dk : Knee) (dh : Hyst)
+  (n i : nat) (knees : list Knee) (blocks : list (list Hyst)) :
+  length knees = n -> well_formed n blocks -> (i < n)%nat ->
+  let alone := map (dmg_row (nth i knees dk)) (point_table dh i blocks) in
+  nth i (mp_n_until n (length blocks) (batch_rows dmg_row knees blocks)) O = n_until alone /\
+  nth i (mp_n_times n (length blocks) (batch_rows dmg_row knees blocks)) 0%Q = n_times alone /\
+  nth i (mp_n_cycles n (length blocks) (batch_rows dmg_row knees blocks)) 0%Q = n_cycles alone.
+Proof. exact (C09Multi.mp_lifetime_pointwise dmg_row dk dh n i knees blocks). Qed.
+
+(* repeating each knee k times (np.repeat) instead of tiling is NOT that; invisible with one hysteresis or equal knees *)
+Theorem multipoint_repeated_knees_refuted :
+  exists (knees : list nat) (blocks : list (list nat)) (n i : nat),
+    length knees = n /\ well_formed n blocks /\ (i < n)%nat /\
+    point_rows (length blocks) n i (map2 pair (rep_each (length blocks) knees) (concat blocks))
+    <> map (pair (nth i knees 0%nat)) (map (fun b => nth i b 0%nat) blocks).
+Proof. exact C09Multi.point_rows_repeated_refuted. Qed.
+
+Theorem single_hysteresis_hides_layout (knees : list R) : rep_each 1 knees = tile 1 knees.
+Proof. exact (C09Multi.rep_each_one knees). Qed.
+
+Theorem equal_knees_hide_layout (c : R) (k : nat) (knees : list R) (r : nat) :
+  List.Forall (eq c) knees -> nth r (rep_each k knees) c = nth r (tile k knees) c.
+Proof. exact (Layout.uniform_hides_layout c k knees r). Qed.
+
 (* ---- safety index *)
 Theorem beta_is_quantile (root_of : R -> R) :
   (forall P_A, 0 < P_A < 1 -> Rabs (Phi (root_of P_A) - P_A) = 0) ->
@@ -165,6 +200,11 @@ Print Assumptions lifetime_is_literal_accumulation.
 Print Assumptions lifetime_early_failure_is_first_index.
 Print Assumptions early_failure_iff_two_passes_reach_one.
 Print Assumptions literal_accumulation_reaches_one_at_x.
+Print Assumptions multipoint_row_uses_own_knee.
+Print Assumptions multipoint_lifetime_is_pointwise.
+Print Assumptions multipoint_repeated_knees_refuted.
+Print Assumptions single_hysteresis_hides_layout.
+Print Assumptions equal_knees_hide_layout.
 Print Assumptions beta_is_quantile.
 Print Assumptions Phi_strictly_increasing.
 Print Assumptions gamma_L_normal.
